@@ -160,6 +160,7 @@ def py_subst_case(ctx, rng, P, p, e, var, plug, plug_e, kind, models, src):
 
 def shard(ctx):
     rng = ctx.rng
+    rp.IDENTITY_WRAP = 0.03     # leaves and compound nodes spelled through an identity-like notation (definition = bare metavariable)
     P = repo.P()
     models = [sem.random_model(rng, n, ('a', 'b', 0, 1)) for n in (1, 2, 2, 3, 3)]
     # ---------------- (a) bounded-exhaustive, Python classes
